@@ -371,7 +371,9 @@ cdef class PredCorr:
         for i in range(num_ops):
             iadd_dense(euler, system.bi(i), dW[0, i])
             iadd_dense(out, system.bi(i), dW[0, i] * eta)
-            iadd_dense(out, system.Libj(i, i), dt * (alpha-1) * 0.5)
+            # The drift is corrected by the weight of the predicted state in
+            # the diffusion term, here ``1 - eta`` (Kloeden & Platen (5.4)).
+            iadd_dense(out, system.Libj(i, i), dt * (alpha-1) * (1-eta))
 
         system.set_state(t+dt, euler)
         for i in range(num_ops):
@@ -380,7 +382,7 @@ cdef class PredCorr:
         if alpha:
             iadd_dense(out, system.a(), dt*alpha)
             for i in range(num_ops):
-                iadd_dense(out, system.Libj(i, i), -dt * alpha * 0.5)
+                iadd_dense(out, system.Libj(i, i), -dt * alpha * (1-eta))
 
         return out
 
